@@ -3,6 +3,8 @@ import NA.Proofs.C20Shape
 import NA.Proofs.C20Linux
 import NA.Proofs.C20Http
 import NA.Proofs.C20Sites
+import NA.Proofs.C20RefCount
+import NA.Proofs.C20Banner
 import NA.Gen.PanicSites
 /-!
 # C20 — malformed input ends in a diagnostic, never in a crash
@@ -26,7 +28,8 @@ open Res NA.Gen.PanicSites
 
 def toDescr (d : RawDescr) : Descr :=
   { pre := d.pre.toList, template := d.template.map String.toList, ignore := d.ignore,
-    sub := d.sub.map fun s => (s.1.map String.toList, s.2) }
+    sub := d.sub.map fun s => (s.1.map String.toList, s.2),
+    refs := d.refs.map String.toList, subRefs := d.subRefs.map fun l => l.map String.toList }
 
 def asaTable : List Descr := asaDescr.map toDescr
 def iosTable : List Descr := iosDescr.map toDescr
@@ -234,11 +237,11 @@ theorem no_panic_stripMetric (parsed : Str) : NoPanic (stripMetric parsed) := st
 
 /-- `setTransRef`: the text behind ` set ikev1 transform-set ` is the tail of a right-trimmed line,
 so it has a word and `strings.Repeat` gets a count ≥ 0. -/
-theorem no_panic_setTransRef (names : Str) (h : Nonblank names) : NoPanic (transRefs names) :=
-  transRefs_noPanic names (fields_ne_nil_of_mem names h)
+theorem no_panic_setTransRef (orig names : Str) (h : Nonblank names) : NoPanic (transRefs true orig names) :=
+  transRefs_noPanic orig names (fields_ne_nil_of_mem names h)
 
 theorem transRefs_blank_counterexample :
-    transRefs (lit " ") = .panic (.explicit "strings: negative Repeat count") := by rfl
+    transRefs true [] (lit " ") = .panic (.explicit "strings: negative Repeat count") := by rfl
 
 /-! ## dstOfRoute, alignVRFs -/
 
@@ -427,7 +430,154 @@ set_option maxRecDepth 100000 in
 /-- The regenerated list of sites equals the hand-maintained table, key by key. -/
 theorem sites_exact : NA.Gen.PanicSites.sites.map (·.key) = siteTable.map (·.1) := by decide
 
+/-! ## round 3: lookup map, checkReferences, merge index searches, removeBanner, all sites -/
+
+instance (ds : List Descr) : Decidable (CleanSubsOf ds) := by unfold CleanSubsOf; infer_instance
+instance (ds : List Descr) : Decidable (RefsDeclared ds) := by unfold RefsDeclared; infer_instance
+instance (ds : List Descr) : Decidable (MaxRefs5 ds) := by unfold MaxRefs5; infer_instance
+
+theorem asa_cleanSubsOf : CleanSubsOf asaTable := by decide
+theorem ios_cleanSubsOf : CleanSubsOf iosTable := by decide
+/-- the regenerated tables declare one referenced prefix per `$REF` token, at most five per template. -/
+theorem asa_refsDeclared : RefsDeclared asaTable := by decide
+theorem ios_refsDeclared : RefsDeclared iosTable := by decide
+theorem asa_maxRefs5 : MaxRefs5 asaTable := by decide
+theorem ios_maxRefs5 : MaxRefs5 iosTable := by decide
+/-- every sub command template of `aaa-server` carries a `$REF`. -/
+theorem asa_aaaSub_hasRef :
+    ∀ d ∈ asaTable, d.pre = lit "aaa-server" → ∀ s ∈ d.sub, 1 ≤ s.1.count refTok := by decide
+
+/-- Every command that the model of `ParseConfig` returns, for ANY file content: found for a
+description of the table, at least as many words as prefix + template, one reference per `$REF`,
+sub commands matched among the sub templates of that description. -/
+theorem parser_result_topOK_asa (isRaw : Bool) (data : Str) (cmds : List Cmd)
+    (h : parseConfig true asaTable isRaw data = .ok cmds) : ∀ c ∈ cmds, TopOK asaTable c :=
+  parseConfig_inv asaTable asa_cleanTop asa_cleanSubsOf isRaw data cmds h
+theorem parser_result_topOK_ios (isRaw : Bool) (data : Str) (cmds : List Cmd)
+    (h : parseConfig true iosTable isRaw data = .ok cmds) : ∀ c ∈ cmds, TopOK iosTable c :=
+  parseConfig_inv iosTable ios_cleanTop ios_cleanSubsOf isRaw data cmds h
+
+/-- The lookup map: every stored list is non-empty and holds commands of the parse result under
+their own (prefix, name) — `l[0]`, `acls[name][0]`, `ab.bCmds[0]` are in range. -/
+theorem lookup_lists_nonempty (ds : List Descr) (cmds : List Cmd) :
+    ∀ g ∈ buildLookup ds cmds, g.2 ≠ [] ∧ ∀ x ∈ g.2, x ∈ cmds ∧ keyOf ds x = g.1 :=
+  fun g hg =>
+    let h := buildLookup_ok ds (fun x => x ∈ cmds) cmds (fun c hc => hc) g hg
+    ⟨h.1, fun x hx => h.2 x hx⟩
+
+/-- `no_panic_aaaServer` with its hypotheses DERIVED from the parser model and the regenerated
+ASA table: for any file content, the aaa-server part of `postprocessParsed` does not panic on any
+entry of the lookup map. -/
+theorem no_panic_aaaServer_derived (isRaw : Bool) (data : Str) (cmds : List Cmd)
+    (h : parseConfig true asaTable isRaw data = .ok cmds) :
+    ∀ g ∈ buildLookup asaTable cmds, g.1.1 = lit "aaa-server" → NoPanic (aaaGroup true g.1.2 g.2) :=
+  aaaGroup_derived asaTable asa_cleanTop asa_cleanSubsOf isRaw data cmds h
+    (fun d hd hp => asa_aaaServer_minWords d hd hp) asa_aaaSub_hasRef
+
+example : ∃ cmds, parseConfig true asaTable false
+    (lit "aaa-server N protocol ldap\naaa-server N (inside) host 1.2.3.4\n ldap-attribute-map M\n") = .ok cmds ∧
+    (buildLookup asaTable cmds).any (fun g => g.1.1 = lit "aaa-server" ∧ g.2.length = 2) = true := by
+  refine ⟨_, rfl, ?_⟩
+  decide
+
+/-- `checkReferences`: `c.typ.ref[i]` is in range whenever no command has more references than
+registered prefixes … -/
+theorem no_panic_checkReferences (fixed : Bool) (ds : List Descr) (lk : Lookup) (isRaw : Bool)
+    (h : ∀ g ∈ lk, ∀ c ∈ g.2, RefsFit fixed ds c) : NoPanic (checkReferences fixed ds lk isRaw) :=
+  checkReferences_noPanic fixed ds lk isRaw h
+
+/-- … which holds for everything the parser returns (ASA and IOS tables, any file content) … -/
+theorem no_panic_checkReferences_parsed_asa (isRaw : Bool) (data : Str) (cmds : List Cmd)
+    (h : parseConfig true asaTable isRaw data = .ok cmds) :
+    NoPanic (checkReferences true asaTable (buildLookup asaTable cmds) isRaw) := by
+  apply checkReferences_noPanic
+  intro g hg c hc
+  have := (buildLookup_ok asaTable (TopOK asaTable) cmds (parser_result_topOK_asa isRaw data cmds h) g hg).2 c hc
+  exact refsFit_of_topOK true asaTable asa_refsDeclared asa_maxRefs5 c this.1
+
+theorem no_panic_checkReferences_parsed_ios (isRaw : Bool) (data : Str) (cmds : List Cmd)
+    (h : parseConfig true iosTable isRaw data = .ok cmds) :
+    NoPanic (checkReferences true iosTable (buildLookup iosTable cmds) isRaw) := by
+  apply checkReferences_noPanic
+  intro g hg c hc
+  have := (buildLookup_ok iosTable (TopOK iosTable) cmds (parser_result_topOK_ios isRaw data cmds h) g hg).2 c hc
+  exact refsFit_of_topOK true iosTable ios_refsDeclared ios_maxRefs5 c this.1
+
+/-- … and stays true when `postprocessParsed` adds references: `postprocessACLParts` appends at
+most five names (five `object-group` prefixes are registered), `setTransRef` stores at most eleven
+after the fix (eleven prefixes are registered). -/
+theorem postprocessACLParts_refs_le5 (fixed : Bool) (tb : Tables) (orig : Str) (parts : List Str)
+    (r : List Str × List Str) (h : aclParts fixed tb orig parts = .ok r) : r.2.length ≤ 5 :=
+  aclParts_refs_le5 fixed tb orig parts r h
+
+theorem refsFit_after_postprocessASAACL (c : Cmd) (d : Nat × Descr) (hd : d ∈ indexed asaTable)
+    (hdi : c.descr = d.1) (hpre : d.2.pre = lit "access-list") (hcnt : c.ref.length = 0) (tb : Tables)
+    (p : Str) (refs : List Str) (h : asaACL true tb c.orig c.parsed = .ok (some (p, refs))) :
+    ({ c with parsed := p, ref := c.ref ++ refs } : Cmd).ref.length ≤
+      (typRefTop asaTable { c with parsed := p, ref := c.ref ++ refs }).length :=
+  refsFit_asaACL asaTable c d hd hdi hpre hcnt tb p refs h
+
+theorem setTransRef_refs_le11 (orig names : Str) (r : List Str × Str) (h : transRefs true orig names = .ok r) :
+    r.1.length ≤ 11 := transRefs_le11 orig names r h
+
+/-- Snapshot (F-C20t): twelve defined transform-sets, eleven registered prefixes. -/
+theorem checkRefs_transformSet_counterexample :
+    (transRefs false [] (lit "a a a a a a a a a a a a")).isPanic = false ∧
+    checkRefs [((lit "crypto ipsec ikev1 transform-set", lit "a"), [])] false []
+      (List.replicate 11 (lit "crypto ipsec ikev1 transform-set")) (List.replicate 12 (lit "a")) =
+      .panic (.index "c.typ.ref[i]") := by
+  exact ⟨rfl, rfl⟩
+example : transRefs true (lit "cmd") (lit "a a a a a a a a a a a a") = .diag (lit "Too many names (max. 11) in: cmd") := by rfl
+
+/-- Snapshot (F-C20u): an IOS ACL line with an object-group has a reference but no registered prefix. -/
+theorem checkRefs_iosObjectGroup_counterexample :
+    checkRefs [] false (lit "permit ip object-group G any")
+      (typRefSub false iosTable ⟨2, [], [], [], 0, [], [], false⟩ ⟨1, [], [], [], 0, [lit "G"], [], false⟩)
+      [lit "G"] = .panic (.index "c.typ.ref[i]") := by rfl
+example : checkRefs [] false (lit "permit ip object-group G any")
+      (typRefSub true iosTable ⟨2, [], [], [], 0, [], [], false⟩ ⟨1, [], [], [], 0, [lit "G"], [], false⟩)
+      [lit "G"] = .diag (lit "'permit ip object-group G any' references unknown 'object-group G'") := by rfl
+
+/-- `mergeASAACLs` / `mergeIOSACLs`: the search for the last permit line and the insert never
+leave the ACL, for ANY lists of lines (IOS: `bCmds` non-empty, which `lookup_lists_nonempty` gives). -/
+theorem no_panic_mergeASAACLs (a b : List AclLine) : NoPanic (mergeASAACL a b) := mergeASAACL_noPanic a b
+theorem no_panic_mergeIOSACLs (aSub : List AclLine) (bCmds : List (List AclLine)) (hne : bCmds ≠ []) :
+    NoPanic (mergeIOSACL aSub bCmds) := mergeIOSACL_noPanic aSub bCmds hne
+theorem mergeIOSACLs_empty_counterexample : mergeIOSACL [] [] = .panic (.index "ab.bCmds[0]") := by rfl
+example : mergeASAACL [⟨lit "p1", lit "access-list $NAME extended permit ip any4 any4", false⟩,
+      ⟨lit "d1", lit "access-list $NAME extended deny ip any4 any4", false⟩]
+    [⟨lit "r1", lit "access-list $NAME extended permit tcp any4 any4", false⟩,
+     ⟨lit "a1", lit "access-list $NAME extended deny ip host 1.1.1.1 any4", true⟩] =
+    .ok [⟨lit "r1", lit "access-list $NAME extended permit tcp any4 any4", false⟩,
+         ⟨lit "p1", lit "access-list $NAME extended permit ip any4 any4", false⟩,
+         ⟨lit "a1", lit "access-list $NAME extended deny ip host 1.1.1.1 any4", true⟩,
+         ⟨lit "d1", lit "access-list $NAME extended deny ip any4 any4", false⟩] := by rfl
+
+/-- `removeBanner` (ios/device.go) and `removeHeader` (nsx/parse.go): no Go panic and
+TERMINATION (fuel `len(data)+1` is never used up: every iteration moves the read position
+forward) for ANY bytes; the in-place copy never overtakes the read position. -/
+theorem no_panic_removeBanner (data : Str) : NoPanic (Banner.removeBanner data) := Banner.removeBanner_noPanic data
+theorem no_panic_removeHeader (data : Str) : NoPanic (Banner.removeHeader (data.length + 1) data) :=
+  Banner.removeHeader_noPanic _ data (by omega)
+example : Banner.removeBanner (lit "a\nbanner motd ^CC\nxx\n^C\nb\n") = .ok (lit "a\nb\n") := by rfl
+example : Banner.removeHeader 20 (lit "# x\n#y\n{}") = .ok (lit "{}") := by rfl
+
+/-- Every index / slice / type assertion / nil-map write / division / panic( site of the packages
+reachable from the three mains has a class: theorem (key in `siteTable`), syntactic (recognised
+guard pattern) or oracle (listed in translate/panicsites/oracle_sites.txt). -/
+theorem all_sites_classified : NA.Gen.PanicSites.unclassified = [] := by decide
+theorem all_sites_partition :
+    NA.Gen.PanicSites.allSites_theorem + NA.Gen.PanicSites.allSites_syntactic + NA.Gen.PanicSites.allSites_oracle +
+      NA.Gen.PanicSites.allSites_unclassified = NA.Gen.PanicSites.allSiteKeys := by decide
+
 def obligations : List Lean.Name := [
+  ``asa_cleanSubsOf, ``ios_cleanSubsOf, ``asa_refsDeclared, ``ios_refsDeclared, ``asa_maxRefs5, ``ios_maxRefs5,
+  ``asa_aaaSub_hasRef, ``parser_result_topOK_asa, ``parser_result_topOK_ios, ``lookup_lists_nonempty,
+  ``no_panic_aaaServer_derived, ``no_panic_checkReferences, ``no_panic_checkReferences_parsed_asa,
+  ``no_panic_checkReferences_parsed_ios, ``postprocessACLParts_refs_le5, ``refsFit_after_postprocessASAACL,
+  ``setTransRef_refs_le11, ``checkRefs_transformSet_counterexample, ``checkRefs_iosObjectGroup_counterexample,
+  ``no_panic_mergeASAACLs, ``no_panic_mergeIOSACLs, ``mergeIOSACLs_empty_counterexample,
+  ``no_panic_removeBanner, ``no_panic_removeHeader, ``all_sites_classified, ``all_sites_partition,
   ``gen_no_problems, ``sites_exact,
   ``asa_noQuoteTop, ``ios_noQuoteTop, ``asa_cleanTop, ``ios_cleanTop, ``asa_cleanSubs, ``ios_cleanSubs,
   ``asa_accessList_minWords, ``asa_aaaServer_minWords, ``ios_ipRoute_minWords, ``ios_interface_minWords,
